@@ -15,6 +15,7 @@ func checkC03(c *Ctx) {
 	ruleResync(c)
 	ruleResyncNotFound(c)
 	ruleTextResume(c)
+	ruleCollectBound(c)
 	ruleReaderWindow(c, "C03")
 	ruleParaRestStart(c)
 	ruleWSSpecRecognisers(c)
